@@ -37,6 +37,17 @@ IirEv(e) ==
   LET h0 == IF e.filled THEN [i \in 1 .. Len(e.taps) - 1 |-> e.fill] ELSE <<>> IN
   Chk(e.out = IirFrom(e.taps, e.x, 1, h0), "iir_recurrence")
 
+(* clamped variant: y[n] = clamp(taps[1] x[n] + sum taps[i+1] y[n-i], mi, mx), *)
+(* and it is the clamped value that is fed back.                              *)
+Clamp(v, mi, mx) == IF v < mi THEN mi ELSE IF v > mx THEN mx ELSE v
+RECURSIVE IirCFrom(_, _, _, _, _, _)
+IirCFrom(taps, x, k, hist, mi, mx) ==
+  IF k > Len(x) THEN <<>>
+  ELSE LET y == Clamp(taps[1] * x[k] + F!SumSeq([i \in 1 .. Len(hist) |-> taps[i + 1] * hist[i]]), mi, mx)
+           h2 == SubSeq(<<y>> \o hist, 1, F!MinI(Len(hist) + 1, Len(taps) - 1))
+       IN <<y>> \o IirCFrom(taps, x, k + 1, h2, mi, mx)
+IirCEv(e) == Chk(e.out = IirCFrom(e.taps, e.x, 1, <<>>, e.mi, e.mx), "iir_clamped_recurrence")
+
 (* low_pass taps: odd count, symmetric, unit DC gain (2^-24 fixed point)    *)
 LowPassEv(e) ==
   LET t == e.taps24 n == Len(t) IN
@@ -62,6 +73,7 @@ Ev(e) ==
   CASE e.ev = "fir" -> FirEv(e)
     [] e.ev = "firc" -> FirCEv(e)
     [] e.ev = "iir" -> IirEv(e)
+    [] e.ev = "iirc" -> IirCEv(e)
     [] e.ev = "lowpass" -> LowPassEv(e)
     [] e.ev = "hilbert_taps" -> HilbertTapsEv(e)
     [] e.ev = "hilbert" -> HilbertEv(e)
